@@ -45,14 +45,16 @@ def run(ctx: Ctx):
   ctx.include('R-C11-7', '"a freshly created (empty) state is a neutral element'
               ' on either side": merge combines every accumulated statistic on'
               ' every path, driven by the configuration and not by what the'
-              ' receiver happens to hold (R-C01-1 coverage, R-C01-7 paths)',
-              _c01_shared, m, min_instances=20)
+              ' receiver happens to hold (R-C01-1 coverage, R-C01-7 paths), each with the'
+              ' same-named statistic of the operand (R-C01-5 pairing)',
+              _c01_shared, m, min_instances=30)
 
 
 def _c01_shared(sub, m):
   from mlmverif.props import c01
   sub.guard(c01.r1, m)
   sub.guard(c01.r7, m)
+  sub.guard(c01.r5, m)
 
 
 def r1(ctx: Ctx, m):
